@@ -68,6 +68,73 @@ def ev(e, env):
     raise ValueError('expr %s' % (e,))
 
 
+def interp(f, args, old):
+    """Evaluate one of the two tiny PollingState methods over its MIR for concrete argument values and a concrete
+    old value of the atomic word (finite domain: 4 states x 2 arguments).  Understands integer/bool locals,
+    constants, bit operations, comparisons, casts, switches and the single atomic read-modify-write (which yields
+    `old` and whose operand is recorded).  Returns (return value, [(method, operand)])."""
+    env = dict(args)
+    ops = []
+
+    def opv(op):
+        if op.get('k') == 'const':
+            v = f.cval(op)
+            if v is None:
+                raise ValueError('constant %s' % (op.get('text') or op.get('def')))
+            return v
+        if 'l' in op and not op['p']:
+            if op['l'] not in env:
+                raise ValueError('local _%d has no value' % op['l'])
+            return env[op['l']]
+        raise ValueError('operand %s' % (op,))
+
+    def rv(x):
+        k = x['k']
+        if k == 'use':
+            return opv(x['op'])
+        if k == 'cast':
+            return int(opv(x['op']))
+        if k == 'bin':
+            a, b = opv(x['a']), opv(x['b'])
+            o = x['op']
+            fn = {'BitOr': lambda: a | b, 'BitAnd': lambda: a & b, 'BitXor': lambda: a ^ b, 'Eq': lambda: int(a == b), 'Ne': lambda: int(a != b),
+                  'Lt': lambda: int(a < b), 'Le': lambda: int(a <= b), 'Gt': lambda: int(a > b), 'Ge': lambda: int(a >= b)}.get(o)
+            if fn is None:
+                raise ValueError('binop %s' % o)
+            return fn()
+        if k == 'un' and x['op'] == 'Not':
+            a = opv(x['a'])
+            return (1 - a) if (x['a'].get('ty') == 'bool') else (~a) & 0xff
+        raise ValueError('rvalue %s' % k)
+    bb = 0
+    for _ in range(400):
+        blk = f.blocks[bb]
+        for s_ in blk['stmts']:
+            if s_['k'] == 'assign' and not s_['lhs']['p']:
+                if s_['rv']['k'] in ('ref', 'rawptr', 'agg'):
+                    env.pop(s_['lhs']['l'], None)  # not a scalar the protocol depends on (e.g. the Ordering argument)
+                    continue
+                env[s_['lhs']['l']] = rv(s_['rv'])
+        t = blk['term']
+        if t['k'] == 'return':
+            if 0 not in env:
+                raise ValueError('no return value')
+            return env[0], ops
+        if t['k'] == 'goto':
+            bb = t['target']
+        elif t['k'] == 'switch':
+            v = opv(t['discr'])
+            bb = {int(x): tgt for x, tgt in t['targets']}.get(v, t['otherwise'])
+        elif t['k'] == 'call' and (t.get('callee') or '').startswith('std::sync::atomic::Atomic::<u8>::'):
+            meth = t['callee'].rsplit('::', 1)[1]
+            ops.append((meth, opv(t['args'][1]) if len(t['args']) > 2 else None))
+            env[t['dest']['l']] = old
+            bb = t['target']
+        else:
+            raise ValueError('terminator %s %s' % (t['k'], t.get('callee') or ''))
+    raise ValueError('did not terminate')
+
+
 def r1_truth_table(r, facts):
     POLLING = facts.const('IS_POLLING')
     AWOKEN = facts.const('IS_AWOKEN')
@@ -84,21 +151,12 @@ def r1_truth_table(r, facts):
         r.require(fam.atomic_kind(m) == 'rmw', name + '/rmw', '%s uses %s instead of a read-modify-write' % (name, m), f.where(loc))
         o = fam.ordering_of(f, t['args'][-1])
         r.require(fam.ord_ok('rmw', o), name + '/ORD', '%s uses Ordering::%s (needs AcqRel)' % (name, o), f.where(loc))
-        operand = eb.operand(t['args'][1])
-        ret = None
-        for l2, s in f.assigns():
-            if s['lhs']['l'] == 0 and not s['lhs']['p']:
-                ret = eb.rvalue(s['rv'])
-        if not r.require(ret is not None, name + '/return', 'return expression not found', f.where()):
-            continue
         try:
             if name == SET_POLLING:
                 for old in states:
                     for p in (False, True):
-                        env = {'old': old, 'is_polling': p}
-                        stored = ev(operand, env)
-                        new = stored if m == 'swap' else None
-                        got = ev(ret, env)
+                        got, ops = interp(f, {2: int(p)}, old)
+                        new = ops[0][1] if len(ops) == 1 and ops[0][0] == 'swap' else None
                         want_new = POLLING if p else 0
                         want_ret = (old & AWOKEN) != 0
                         r.inst('set_polling(%s) old=%d -> new=%s ret=%s' % (p, old, new, got), f.where(loc))
@@ -106,10 +164,9 @@ def r1_truth_table(r, facts):
                         r.require(bool(got) == want_ret, name + '/table-ret', 'set_polling(%s) with old=%d returns %s, expected %s (was-awoken)' % (p, old, got, want_ret), f.where(loc))
             else:
                 for old in states:
-                    env = {'old': old}
-                    mask = ev(operand, env)
-                    new = (old | mask) if m == 'fetch_or' else None
-                    got = ev(ret, env)
+                    got, ops = interp(f, {}, old)
+                    mask = ops[0][1] if len(ops) == 1 else None
+                    new = (old | mask) if m == 'fetch_or' and mask is not None else None
                     want_new = old | AWOKEN
                     want_ret = old == POLLING
                     r.inst('wake() old=%d -> new=%s ret=%s' % (old, new, got), f.where(loc))
@@ -211,10 +268,18 @@ def r3_sq_wake(r, facts):
         al, at = adds[0]
         # decided on paths, whatever the spelling (match, `?`, is_ok(), a `queued` flag): starting behind an add
         # that returned Err(QueueFull), no successful return of wake() is reachable without another add
-        oks = [loc for loc, s_ in f.assigns() if s_['lhs']['l'] == 0 and not s_['lhs']['p'] and s_['rv']['k'] == 'agg' and s_['rv'].get('variant') == 'Ok']
-        r.require(bool(oks), 'Submissions::wake/ok-return', 'Ok return of wake not found', f.where())
+        # (returning the kernel's error of the flushing enter is the one legitimate way out; an error made from the
+        # QueueFull itself is swallowed by SubmissionQueue::wake and loses the wake-up just the same)
+        from .kernel import result_edges
+        enter_err = []
+        for el_, et_ in enters:
+            re_ = result_edges(f, et_)
+            if re_ is not None and re_[1] is not None:
+                enter_err.append(Loc(re_[1][1], 0))
+            else:
+                r.bad('Submissions::wake/enter-result', 'how the result of the flushing enter is handled was not recognised', f.where(el_))
         if at['target'] is not None and not at['dest']['p'] and at['dest']['l'] in f._frozen_enums():
-            hit = f.forward_paths_hit([Loc(at['target'], 0)], oks, blockers=[al], env0={('D', at['dest']['l']): 1})
+            hit = f.forward_paths_hit([Loc(at['target'], 0)], f.returns(), blockers=[al] + enter_err, env0={('D', at['dest']['l']): 1})
             r.inst('QueueFull => retry', f.where(al))
             r.require(hit is None, 'Submissions::wake/full-gives-up', 'when the submission queue is full wake() returns without having queued the wake message (the polling thread is already marked awoken, so later wakes are skipped too: the wake-up is lost)', f.where(hit[0]) if hit else f.where(al))
         else:
